@@ -402,6 +402,10 @@ DAMAGE_HISTS = [
     [('backup', 'F'), ('commit',), ('backup',), ('commit',), ('backup', 'F'),
      ('commit',), ('backup',)],
     [('backup', 'F'), ('commit',), ('backup', 'F')],
+    # chains that end in / contain an empty increment
+    [('backup', 'F'), ('backup-inflight',)],
+    [('backup', 'F', 'z'), ('backup-inflight', 'z'), ('commit',),
+     ('backup', 'z')],
 ]
 
 
@@ -420,8 +424,9 @@ def run(rep, tier, seed, workers):
         'recover at every date in {none, each backup second, +-1 s} with and '
         'without --with-verify compared byte for byte with the committed '
         'prefix recorded at the selected backup, opened with the restored '
-        'index, repository verified full and quick; for 5 fixed histories '
-        '(two of them with an older chain behind the current one) '
+        'index, repository verified full and quick; for 7 fixed histories '
+        '(two with an older chain behind the current one, two with an empty '
+        'increment) '
         'every chain file removed / cut at every length / altered at every '
         'byte and verified; non-trivial = history with at least two backups')
     cfg = dict(prop='C18', flagsets=[list(f) for f in (
